@@ -866,6 +866,59 @@ def reentrant_in_flight(s):
     s.do(R(E(H, {"k": "remove_bucket", "id": 2}), prog2), "hostile")
 
 
+def royalty_many_collections_cfg():
+    return world.default_cfg(n_cw20=1, n_cw721=25, hostile=False, tokens_per_coll=3)
+
+
+def royalty_many_collections(s):
+    """C11 / C14 / C06: more than twenty registered collections on one side (a record holds up to 25 assets): the cap counts
+    every one of them, the batched lookup answers every one of them."""
+    colls = s.by_kind("cw721")  # 25 collections; the last has no admin
+    for c in colls[:24]:
+        reg(s, c, 250 if c != colls[23] else 10)
+    # 21 collections at 250 bps = 5250: refused (the first 20 alone would be exactly 5000)
+    s.do({"t": "nft_send", "user": "usr0", "coll": colls[0], "token_id": "1",
+          "inner": {"k": "create_listing_cw721", "id": 1, "ask": G(n=[["ujunox", 10000]]), "wl": None}}, "valid")
+    for c in colls[1:21]:
+        nft_send(s, "usr0", c, "1", {"k": "add_to_listing_cw721", "id": 1})
+    s.do(E("usr0", {"k": "finalize", "id": 1, "secs": 86400}), "valid")
+    bucket(s, "usr1", 1, [["ujunox", 10000]])
+    buy(s, "usr1", 1, 1)                                               # 5250: refused
+    # 20 collections at 250 (5000) + the 10-bps one would be 5010: refused; without it exactly 50 %: allowed, 20 payouts
+    s.do({"t": "nft_send", "user": "usr1", "coll": colls[0], "token_id": "2",
+          "inner": {"k": "create_listing_cw721", "id": 2, "ask": G(n=[["ujunox", 10000]]), "wl": None}}, "valid")
+    for c in colls[1:20] + [colls[24]]:
+        nft_send(s, "usr1", c, "2", {"k": "add_to_listing_cw721", "id": 2})
+    s.do(E("usr1", {"k": "finalize", "id": 2, "secs": 86400}), "valid")
+    bucket(s, "usr2", 2, [["ujunox", 10000]])
+    with_faults(s, E("usr2", {"k": "buy", "lid": 2, "bid": 2}))        # 20 x 250 + an unregistered one: allowed
+    # the buyer's side: 22 collections of which the last two in address order are the registered ones that tip it over
+    listing(s, "usr3", 3, [["ujunox", 3]], G(f=[[c, "3"] for c in colls[2:24]]), secs=86400)
+    s.do({"t": "nft_send", "user": "usr2", "coll": colls[2], "token_id": "3", "inner": {"k": "create_bucket_cw721", "id": 3}}, "valid")
+    for c in colls[3:24]:
+        nft_send(s, "usr2", c, "3", {"k": "add_to_bucket_cw721", "id": 3})
+    buy(s, "usr2", 3, 3)                                               # 21 x 250 + 10 = 5260 on the buyer side: refused
+
+
+def nft_duplicates_via_hook(s):
+    """C12 / C02: the same NFT delivered twice to one record, with another NFT in between (an honest collection cannot do
+    that; a contract calling ReceiveNft directly can): refused — otherwise a bucket [n, m, n] would pass for an ask [n, m, k]."""
+    H = HOSTILE
+    ask = G(f=[[H, "7"], [COLL1, "2"], [COLL2, "2"]])
+    listing(s, "usr0", 1, [["uatom", 5]], ask, secs=3600)
+    s.do(E(H, {"k": "receive_nft", "sender": "usr1", "token_id": "7", "inner": {"k": "create_bucket_cw721", "id": 1}}), "hostile")
+    nft_send(s, "usr1", COLL1, "2", {"k": "add_to_bucket_cw721", "id": 1})
+    s.do(E(H, {"k": "receive_nft", "sender": "usr1", "token_id": "7", "inner": {"k": "add_to_bucket_cw721", "id": 1}}), "hostile")   # duplicate, not adjacent: refused
+    buy(s, "usr1", 1, 1)                                               # two of three asked NFTs: refused
+    # the same on a listing in preparation, and an adjacent duplicate
+    s.do(E(H, {"k": "receive_nft", "sender": "usr2", "token_id": "8", "inner": {"k": "create_listing_cw721", "id": 2, "ask": G(n=[["uosmo", 1]]), "wl": None}}), "hostile")
+    s.do(E(H, {"k": "receive_nft", "sender": "usr2", "token_id": "8", "inner": {"k": "add_to_listing_cw721", "id": 2}}), "hostile")   # adjacent duplicate: refused
+    s.do(E(H, {"k": "receive_nft", "sender": "usr2", "token_id": "9", "inner": {"k": "add_to_listing_cw721", "id": 2}}), "hostile")
+    s.do(E(H, {"k": "receive_nft", "sender": "usr2", "token_id": "8", "inner": {"k": "add_to_listing_cw721", "id": 2}}), "hostile")   # not adjacent: refused
+    nft_send(s, "usr1", COLL2, "2", {"k": "add_to_bucket_cw721", "id": 1})
+    buy(s, "usr1", 1, 1)                                               # now the bucket matches
+
+
 def hostile_freeze(s):
     """F1 (known finding): a forged top-up freezes the victim's bucket."""
     ask = G(n=[["uosmo", 7]])
@@ -968,6 +1021,8 @@ SCRIPTS = {
     "hostile_freeze": (world.default_cfg, hostile_freeze, ("no_drain",)),
     "hostile_recreate": (world.default_cfg, hostile_recreate, ()),
     "hook_edge_inputs": (world.default_cfg, hook_edge_inputs, ()),
+    "royalty_many_collections": (royalty_many_collections_cfg, royalty_many_collections, ("no_drain",)),
+    "nft_duplicates_via_hook": (world.default_cfg, nft_duplicates_via_hook, ("no_drain",)),
     "fee_cycle_subsecond": (fee_cycle_subsecond_cfg, fee_cycle_subsecond, ()),
     "reentrant_withdrawal": (world.default_cfg, reentrant_withdrawal, ("reentrant",)),
     "reentrant_royalty": (world.default_cfg, reentrant_royalty, ("reentrant",)),
